@@ -122,28 +122,28 @@ PROPS = {
         "level_note": "size formula 653+8v / 653+21v for replies, structural bounds of handler replies (<= 8 nodes per family, <= 100/40 peers, 20-byte token), fixed query sizes, announce <= 420 with a recorded token, error replies < 70+tid proved for all states; every datagram the real handler emits in lockstep runs is measured by the [C17] oracle. Findings F17 (unbounded values list) and F17b (unbounded echoed token) were fixed in /repo",
     },
     "C18": {
-        "engines": [{"name": "node", "quick": 42, "thorough": 210, "oracle_tag": "C18"}],
+        "engines": [{"name": "node", "quick": 42, "thorough": 140, "oracle_tag": "C18"}],
         "constants": ["REFRESH_INTERVAL_TIMEOUT_ns", "PERIODIC_CHECK_TIMEOUT_ns", "GOOD_NODE_THRESHOLD"],
         "trusted": NODE_TRUST,
         "assumptions": [],
         "level_note": "single refresh chain (at most one pending TableRefresh entry in every state of every run) and >= 6 s between consecutive refresh rounds, hence at most w/6s+1 rounds in any window, proved for all runs of the node model (any inputs, any number of re-bootstraps); finding F18 (one more chain per bootstrap completion) demonstrated by the node engine and fixed in /repo",
     },
     "C16": {
-        "engines": [{"name": "node", "quick": 42, "thorough": 210, "oracle_tag": "C16"}],
+        "engines": [{"name": "node", "quick": 42, "thorough": 140, "oracle_tag": "C16"}],
         "constants": ["GOOD_NODE_THRESHOLD"],
         "trusted": NODE_TRUST,
         "assumptions": [],
         "level_note": "queueing before the first completion, start of every queued search (in order, by the same function a late search goes through) when the completion is handled, no stream item/stream end before the first handled completion in any run, queue empty ever after: proved for all runs of the node model; that the started search yields what the late search yields is C02/C03 at model level and the [C16] oracle (every search of a truthful static network yields the stored peer) on the real node. Finding F16 demonstrated by the node engine and fixed in /repo",
     },
     "C15": {
-        "engines": [{"name": "node", "quick": 42, "thorough": 210, "oracle_tag": "C15"}],
+        "engines": [{"name": "node", "quick": 42, "thorough": 140, "oracle_tag": "C15"}],
         "constants": ["INITIAL_TIMEOUT_ns", "NODE_TIMEOUT_ns", "NO_NETWORK_TIMEOUT_ns", "PERIODIC_CHECK_TIMEOUT_ns", "GOOD_NODE_THRESHOLD", "MAX_INITIAL_RESPONSES", "BOOTSTRAP_RETRY_BASE", "BOOTSTRAP_RETRY_MAX_EXP", "BOOTSTRAP_THROTTLE_AFTER"],
         "trusted": NODE_TRUST,
         "assumptions": [],
         "level_note": "PARTIAL: proved for every run of the node model — no contacts: Bootstrapped in the starting step and the worker never attempts anything; with contacts: no Bootstrapped publication, no handled completion and no returning bootstrapped() before a contact's response was accepted; every waiter resolved in the step of the completion, nobody left waiting while bootstrapped, immediate return while bootstrapped; API commands always answered; first-round contacts pairwise distinct (the F15 assertion is unreachable). Not proved in Lean — the timed clause (resolution within about 11 minutes of a contact becoming responsive after any outage pattern): decided by the [C15] oracle of the node engine on outage/flapping scenarios against the real node (tie). Finding F15 demonstrated by the node engine and fixed in /repo",
     },
     "C11": {
-        "engines": [{"name": "node", "quick": 42, "thorough": 210, "oracle_tag": "C11"},
+        "engines": [{"name": "node", "quick": 42, "thorough": 140, "oracle_tag": "C11"},
                     # the status / bucket rules the C11 theorems build on are those of C10 / C08: their tie
                     {"name": "table", "quick": 30, "thorough": 400, "oracle_tag": "C10", "op_filter": ["n", "contacts", "counts", "local", "remote"]}],
         "constants": ["REFRESH_INTERVAL_TIMEOUT_ns", "REFRESH_CONCURRENCY", "RECENTLY_REQUESTED_SECS", "MAX_LAST_SEEN_MINS", "MAX_REFRESH_REQUESTS", "PINGS_PER_BUCKET"],
@@ -152,7 +152,7 @@ PROPS = {
         "level_note": "PARTIAL: proved — a refresh round queries exactly the first 4 waiting questionable contacts (all if <= 4) and leaves the next round pending 6 s later for ever (one chain: C18); an accepted answer makes the listed contact good at once; two unanswered queries after the 15 min window make it bad, and bad contacts are neither listed nor handed out (C10/C08). Not proved in Lean — the quantitative bounds (good again within 30 s; gone within 20 min of the last answer / 5 min of the last naming) over all interleavings with latencies: decided by the [C11] oracle on hours-long runs of the real node sampled every 5 virtual seconds, in lockstep with the model (tie). Suspicion F11 (a responsive contact transiently bad within one round trip) was not observed by the oracle in any run",
     },
     "C01": {
-        "engines": [{"name": "node", "quick": 42, "thorough": 210, "oracle_tag": "C01"},
+        "engines": [{"name": "node", "quick": 42, "thorough": 140, "oracle_tag": "C01"},
                     # the links of the chain are theorems about the storage / token / handler models: their ties
                     {"name": "storage", "quick": 30, "thorough": 400},
                     {"name": "token", "quick": 30, "thorough": 400},
